@@ -161,7 +161,7 @@ theorem decFacts_mk {J : Type} (nameOf : J → String) (ns : List (WNode J)) (pl
     have := wellIdx_of_nodesOk ns 0 hok i
     simpa [shapes] using this
   refine ⟨?_, hw, by simpa using hlen, hroot⟩
-  refine ⟨hsize, by rw [hansz, hsize], hnode, ?_, hdist, ?_⟩
+  refine ⟨⟨hsize, by rw [hansz, hsize], hnode, ?_, hdist⟩, ?_⟩
   · intro i n hi
     have := ok_of_nodesOk ns 0 hok i n (by simpa using hi)
     simpa using this
